@@ -7,6 +7,8 @@ import (
 	"errors"
 	"fmt"
 	"math/rand"
+	"regexp"
+	"strings"
 	"time"
 
 	biscuit "github.com/biscuit-auth/biscuit-go/v2"
@@ -50,6 +52,8 @@ type AOp struct {
 	MF   int    `json:"mf"`   // new: world limits (0 = default)
 	MI   int    `json:"mi"`
 	Ctor string `json:"ctor"` // new: "" = AuthorizerFor, "authorizer" = Authorizer(), "newverifier" = NewVerifier
+	Mode string `json:"mode"` // add: "" = AddFact/AddRule/..., "block" = AddBlock+AddPolicy, "authorizer" = AddAuthorizer,
+	// "text" = content printed as Datalog source, parsed with parser.FromStringAuthorizer, then AddAuthorizer
 }
 
 type AuthzCase struct {
@@ -278,6 +282,44 @@ func runAuthz(c *AuthzCase) (interface{}, error) {
 			}
 		case "add":
 			z := op.Az
+			if op.Mode != "" && !op.Dup {
+				pa := biscuit.ParsedAuthorizer{}
+				for _, k := range shuffled(len(z.F), op.Shuf) {
+					pa.Block.Facts = append(pa.Block.Facts, e.Fact(z.F[k]))
+				}
+				for _, k := range shuffled(len(z.R), op.Shuf+1) {
+					pa.Block.Rules = append(pa.Block.Rules, e.Rule(z.R[k]))
+				}
+				for _, k := range shuffled(len(z.C), op.Shuf+2) {
+					pa.Block.Checks = append(pa.Block.Checks, e.Check(shufRules(z.C[k], op.Shuf)))
+				}
+				for _, p := range z.P {
+					pp := p
+					pp.Q = shufRules(p.Q, op.Shuf)
+					pa.Policies = append(pa.Policies, e.Policy(pp))
+				}
+				mode := op.Mode
+				if mode == "text" {
+					if src, ok := datalogSource(pa); ok {
+						parsed, err := sharedParser.Authorizer(src, nil)
+						if err != nil {
+							return map[string]interface{}{"harness": "generated Datalog source does not parse: " + err.Error() + " :: " + src}, nil
+						}
+						pa = parsed
+					}
+					mode = "authorizer"
+				}
+				if mode == "block" {
+					a.AddBlock(pa.Block)
+					for _, p := range pa.Policies {
+						a.AddPolicy(p)
+					}
+				} else {
+					a.AddAuthorizer(pa)
+				}
+				obs = append(obs, AObs{OK: &yes})
+				break
+			}
 			for _, k := range shuffled(len(z.F), op.Shuf) {
 				a.AddFact(e.Fact(z.F[k]))
 				if op.Dup {
@@ -369,4 +411,146 @@ func init() {
 		}
 		return runAuthz(&c)
 	}
+}
+
+
+var identRe = regexp.MustCompile(`^[a-z][a-zA-Z0-9_:]*$`)
+var varRe = regexp.MustCompile(`^[a-zA-Z0-9_:]+$`)
+
+// datalogSource prints builder-level content in the documented grammar (ok = false when a value has no literal form:
+// negative integers, strings with quotes, empty sets).
+func datalogSource(pa biscuit.ParsedAuthorizer) (string, bool) {
+	ok := true
+	var term func(t biscuit.Term) string
+	term = func(t biscuit.Term) string {
+		switch x := t.(type) {
+		case biscuit.Integer:
+			if x < 0 {
+				ok = false
+			}
+			return fmt.Sprint(int64(x))
+		case biscuit.String:
+			if strings.ContainsAny(string(x), "\"\\\n") {
+				ok = false
+			}
+			return "\"" + string(x) + "\""
+		case biscuit.Variable:
+			if !varRe.MatchString(string(x)) {
+				ok = false
+			}
+			return "$" + string(x)
+		case biscuit.Date:
+			return time.Time(x).UTC().Format(time.RFC3339)
+		case biscuit.Bytes:
+			return fmt.Sprintf("hex:%x", []byte(x))
+		case biscuit.Bool:
+			return fmt.Sprint(bool(x))
+		case biscuit.Set:
+			if len(x) == 0 {
+				ok = false
+			}
+			el := []string{}
+			for _, e := range x {
+				el = append(el, term(e))
+			}
+			return "[" + strings.Join(el, ", ") + "]"
+		}
+		ok = false
+		return "?"
+	}
+	pred := func(p biscuit.Predicate) string {
+		if !identRe.MatchString(p.Name) {
+			ok = false // not a name the grammar can spell
+		}
+		ts := []string{}
+		for _, t := range p.IDs {
+			ts = append(ts, term(t))
+		}
+		return p.Name + "(" + strings.Join(ts, ", ") + ")"
+	}
+	binTok := map[biscuit.BinaryOp]string{biscuit.BinaryLessThan: "<", biscuit.BinaryLessOrEqual: "<=", biscuit.BinaryEqual: "==", biscuit.BinaryAdd: "+", biscuit.BinaryDiv: "/"}
+	expr := func(e biscuit.Expression) string { // the shapes Embed.Guard produces
+		st := []string{}
+		for _, op := range e {
+			switch x := op.(type) {
+			case biscuit.Value:
+				st = append(st, term(x.Term))
+			case biscuit.UnaryOp:
+				if len(st) < 1 {
+					ok = false
+					return ""
+				}
+				a := st[len(st)-1]
+				switch x {
+				case biscuit.UnaryNegate:
+					st[len(st)-1] = "!(" + a + ")"
+				case biscuit.UnaryLength:
+					st[len(st)-1] = a + ".length()"
+				default:
+					ok = false
+				}
+			case biscuit.BinaryOp:
+				if len(st) < 2 {
+					ok = false
+					return ""
+				}
+				a, b := st[len(st)-2], st[len(st)-1]
+				st = st[:len(st)-2]
+				if x == biscuit.BinaryPrefix {
+					st = append(st, a+".starts_with("+b+")")
+				} else if tk, found := binTok[x]; found {
+					st = append(st, a+" "+tk+" "+b)
+				} else {
+					ok = false
+				}
+			}
+		}
+		if len(st) != 1 {
+			ok = false
+			return ""
+		}
+		return st[0]
+	}
+	body := func(r biscuit.Rule) string {
+		parts := []string{}
+		for _, p := range r.Body {
+			parts = append(parts, pred(p))
+		}
+		for _, e := range r.Expressions {
+			parts = append(parts, expr(e))
+		}
+		if len(parts) == 0 {
+			return "true"
+		}
+		return strings.Join(parts, ", ")
+	}
+	var b strings.Builder
+	for _, f := range pa.Block.Facts {
+		b.WriteString(pred(f.Predicate) + ";\n")
+	}
+	for _, r := range pa.Block.Rules {
+		if len(r.Body) == 0 && len(r.Expressions) == 0 {
+			ok = false // a rule needs a body in the grammar
+		}
+		b.WriteString(pred(r.Head) + " <- " + body(r) + ";\n")
+	}
+	for _, c := range pa.Block.Checks {
+		qs := []string{}
+		for _, q := range c.Queries {
+			qs = append(qs, body(q))
+		}
+		b.WriteString("check if " + strings.Join(qs, " or ") + ";\n")
+	}
+	for _, p := range pa.Policies {
+		qs := []string{}
+		for _, q := range p.Queries {
+			qs = append(qs, body(q))
+		}
+		kw := "allow if "
+		if p.Kind == biscuit.PolicyKindDeny {
+			kw = "deny if "
+		}
+		b.WriteString(kw + strings.Join(qs, " or ") + ";\n")
+	}
+	return b.String(), ok
 }
